@@ -4,6 +4,7 @@
 #   every /verif/benign/<id> must leave all six checks quiet (exit 0).
 # Runs in <n> scratch slots in parallel (default 4); writes /verif/seeded/REGRESSION.md
 N=${1:-4}
+export VERIF_SNAPSHOT=$(git -C /verif rev-parse HEAD)
 OUT=/tmp/regress-$$; mkdir -p $OUT
 ls -d /verif/seeded/*/ | xargs -n1 basename > $OUT/seeds.txt
 ls -d /verif/benign/*/ | xargs -n1 basename > $OUT/benign.txt
